@@ -419,7 +419,7 @@ Definition dres (x : nat * Q * list (ginstr (A:=Q))) (modes outer : list nat) (s
   | None => [(-1)%Z]
   | Some K =>
     let st' := gdyne QOps d h st modes outer sm K sample in
-    b2z (qidb k (lmul QOps k B K)) :: b2z (physb (List.length outer) h (snd st')) :: gflat st'
+    b2z (qidb k (lmul QOps k B K) && qsymb k K && physb 1 1 sm) :: b2z (physb (List.length outer) h (snd st')) :: gflat st'
   end.
 """
 
@@ -878,8 +878,7 @@ def load_corpus():
 
 
 def run(chk: Check):
-    if os.environ.get("C08_DEV_SKIP_PROOFS") != "1":
-        chk.proofs()
+    chk.proofs()
     T = chk.thorough
     rng = chk.rng
     real_chk = chk
@@ -898,9 +897,6 @@ def run(chk: Check):
             coqs.append(entry["coq"])
             hbars.append(F(entry["hbar"]))
             dynes.append(None)
-    only = os.environ.get("C08_ONLY", "")  # development switch (mutation runs): "gauss" or "fock"
-    if only == "fock":
-        nprog = 0
     for i in range(nprog):
         d = 1 + (i % dmax)
         length = rng.randint(3, 9 if T else 7)
@@ -920,7 +916,7 @@ def run(chk: Check):
 
     req = {"gauss": cases,
            "channel_accept": [dict(X=mat_fl(X), Y=mat_fl(Y)) for X, Y in chans]}
-    fock_req, fock_ctx = fock_generate(chk, empty=(only == "gauss"))
+    fock_req, fock_ctx = fock_generate(chk)
     req.update(fock_req)
     import time as _t
     t0 = _t.time()
@@ -935,7 +931,7 @@ def run(chk: Check):
     chunk = 10
     bodies = []
     for i in range(0, len(coqs), chunk):
-        lines = ["Definition p%d := %s." % (j, coqs[j]) for j in range(i, min(i + chunk, len(coqs)))]
+        lines = ["Definition p%d : nat * Q * list (ginstr (A:=Q)) := %s." % (j, coqs[j]) for j in range(i, min(i + chunk, len(coqs)))]
         evals = ["Eval vm_compute in res p%d." % j for j in range(i, min(i + chunk, len(coqs)))]
         for j in range(i, min(i + chunk, len(coqs))):
             dy = dynes[j]
@@ -1044,7 +1040,7 @@ def run(chk: Check):
                     no = 2 * len(dy["outer"])
                     mean, cov = unflat(flat, no)
                     if not okinv:
-                        corr_broken.append("model inverse check failed (program %d)" % j)
+                        corr_broken.append("hypotheses of generaldyne_conditional_phys not met: B K = 1, K symmetric, detection covariance physical (program %d)" % j)
                     if not phys:
                         chk.violation("C08:_get_generaldyne_evolved_state:model-unphysical",
                                       "exact conditional state violates the uncertainty relation", witness)
@@ -1101,9 +1097,6 @@ def run(chk: Check):
         "validity of each generated instruction (symplectic matrix, CP condition, physical covariance) is decided exactly by the model at Q (symplecticb/chanb/physb); soundness of the LDL^T decision is cross-checked by an independent Python implementation, not proved",
         "the (m, C, G) update rules of the Gaussian simulator are compared with mu -> S mu, sigma -> S sigma S^T only through the observed state (black-box tie)",
     ]
-    if os.environ.get("C08_DEV_SKIP_PROOFS") == "1" or only:
-        # development switches (used for mutation runs): such a run is never reported as green
-        corr_broken.append("development switch set (C08_DEV_SKIP_PROOFS / C08_ONLY): partial run, not a verdict")
     chk.flush()
     real_chk.finish(
         rule="Gaussian: states after each instruction (non-trivial: mixed or displaced); channels: twice the smaller of the valid/invalid counts; Fock: see stream notes",
